@@ -1,151 +1,269 @@
-//! C14 black-box tier: a real worker (HTTP/1 listener, cluster with `http2 =
-//! true`), a scripted byte-accounting h2c backend that announces its own
-//! SETTINGS_INITIAL_WINDOW_SIZE, grants WINDOW_UPDATEs only for what it has
-//! received and keeps its own ledger, and an HTTP/1 client that POSTs bodies
-//! through the proxy on one keep-alive connection.
+//! C14 black-box tier: a real worker, a scripted byte-accounting h2c backend
+//! and a client that uploads request bodies through the proxy.
 //!
-//! usage: c14bb <backend initial window> <body bytes> <requests>
-//! prints `obs ...` lines and, when a DATA frame exceeds what the backend
-//! granted, `viol over-stream-window ...` / `viol over-connection-window ...`.
+//! The backend announces its own SETTINGS_INITIAL_WINDOW_SIZE (`w`), opens the
+//! connection window wide at once, and grants stream credit ONLY when nothing
+//! has arrived for a while (the sender is necessarily blocked or done), so its
+//! ledger is race-free: at every DATA frame, bytes received on the stream must
+//! be <= the credit granted so far; every DATA <= 16384 (its max frame size).
+//!
+//! usage: c14bb <h1|h2> <backend initial window> <body bytes> <requests> [client initial window]
+//!   h1: HTTP/1.1 keep-alive client on a plain listener
+//!   h2: raw H2 client over TLS that announces SETTINGS_INITIAL_WINDOW_SIZE = client window
+//! output: `obs ...`, `viol over-stream-window|over-connection-window|over-max-frame|keepalive-broken ...`
+#[path = "../h2bb.rs"]
+mod h2bb;
 use std::{
     collections::HashMap,
     io::{Read, Write},
     net::{SocketAddr, TcpListener, TcpStream},
-    os::fd::IntoRawFd,
-    os::unix::net::UnixStream,
     sync::mpsc,
     time::{Duration, Instant},
 };
 
+use h2bb::*;
 use sozu_command_lib::{
-    channel::Channel,
-    config::{ConfigBuilder, FileConfig, ListenerBuilder},
+    config::ListenerBuilder,
     proto::command::{
         request::RequestType, ActivateListener, AddBackend, Cluster, ListenerType, LoadBalancingParams, PathRule,
-        Request, RequestHttpFrontend, RulePosition, ServerConfig, SocketAddress, WorkerRequest, WorkerResponse,
+        RequestHttpFrontend, RulePosition, SocketAddress,
     },
-    scm_socket::{Listeners, ScmSocket},
-    state::ConfigState,
 };
-use sozu_lib::server::Server;
 
-fn free_port() -> u16 {
-    TcpListener::bind("127.0.0.1:0").unwrap().local_addr().unwrap().port()
-}
+const CONN_GRANT: u32 = 1 << 24;
 
-fn frame(t: u8, flags: u8, sid: u32, payload: &[u8]) -> Vec<u8> {
-    let mut v = vec![(payload.len() >> 16) as u8, (payload.len() >> 8) as u8, payload.len() as u8, t, flags];
-    v.extend_from_slice(&sid.to_be_bytes());
-    v.extend_from_slice(payload);
-    v
-}
-
-/// the backend: returns its findings through the channel
 fn backend(listener: TcpListener, w: u32, tx: mpsc::Sender<String>) {
-    listener.set_nonblocking(false).unwrap();
-    let deadline = Instant::now() + Duration::from_secs(20);
+    let deadline = Instant::now() + Duration::from_secs(40);
     while Instant::now() < deadline {
         let Ok((mut s, _)) = listener.accept() else { return };
-        s.set_read_timeout(Some(Duration::from_secs(6))).unwrap();
-        let mut pre = [0u8; 24];
-        if s.read_exact(&mut pre).is_err() {
+        s.set_read_timeout(Some(Duration::from_millis(150))).unwrap();
+        let mut acc: Vec<u8> = vec![];
+        let mut buf = [0u8; 65536];
+        // preface
+        let t0 = Instant::now();
+        while acc.len() < 24 && t0.elapsed() < Duration::from_secs(5) {
+            match s.read(&mut buf) {
+                Ok(0) => break,
+                Ok(n) => acc.extend_from_slice(&buf[..n]),
+                Err(_) => {}
+            }
+        }
+        if acc.len() < 24 {
             continue;
         }
-        let mut settings = vec![0u8, 4];
-        settings.extend_from_slice(&w.to_be_bytes());
-        let _ = s.write_all(&frame(4, 0, 0, &settings));
+        acc.drain(..24);
+        let _ = s.write_all(&settings(&[(4, w)]));
+        let _ = s.write_all(&frame(T_WU, 0, 0, &CONN_GRANT.to_be_bytes()));
         let mut acked = false;
         let mut credit: HashMap<u32, i64> = HashMap::new();
         let mut sent: HashMap<u32, i64> = HashMap::new();
+        let mut open: Vec<u32> = vec![];
         let mut flagged: HashMap<u32, bool> = HashMap::new();
-        let (mut credit_conn, mut sent_conn) = (65535i64, 0i64);
-        loop {
-            let mut h = [0u8; 9];
-            if s.read_exact(&mut h).is_err() {
-                break;
+        let (credit_conn, mut sent_conn) = (65535i64 + CONN_GRANT as i64, 0i64);
+        let mut idle_rounds = 0;
+        'conn: loop {
+            let (frames, used) = parse_frames(&acc);
+            acc.drain(..used);
+            for f in frames {
+                idle_rounds = 0;
+                match f.t {
+                    T_SETTINGS => {
+                        if f.flags & 1 == 0 {
+                            let _ = s.write_all(&frame(T_SETTINGS, 1, 0, &[]));
+                        } else {
+                            acked = true;
+                            let _ = tx.send("obs settings-acked".into());
+                        }
+                    }
+                    T_PING => {
+                        if f.flags & 1 == 0 {
+                            let _ = s.write_all(&frame(T_PING, 1, 0, &f.payload));
+                        }
+                    }
+                    T_HEADERS => {
+                        // before sozu acknowledged our SETTINGS it may still assume the default window
+                        let c = if acked { w as i64 } else { (w as i64).max(65535) };
+                        credit.entry(f.sid).or_insert(c);
+                        sent.entry(f.sid).or_insert(0);
+                        let _ = tx.send(format!("obs headers stream={} after_ack={acked} credit={c}", f.sid));
+                        if f.flags & 1 != 0 {
+                            let _ = s.write_all(&frame(T_HEADERS, 5, f.sid, &[0x88]));
+                        } else {
+                            open.push(f.sid);
+                        }
+                    }
+                    T_DATA => {
+                        let n = f.payload.len() as i64;
+                        *sent.entry(f.sid).or_insert(0) += n;
+                        sent_conn += n;
+                        let c = *credit.entry(f.sid).or_insert(w as i64);
+                        if sent[&f.sid] > c && !flagged.get(&f.sid).copied().unwrap_or(false) {
+                            flagged.insert(f.sid, true);
+                            let _ = tx.send(format!(
+                                "viol over-stream-window backend stream {}: {} DATA bytes received, {c} granted (backend initial window {w}, after_ack={acked})",
+                                f.sid, sent[&f.sid]
+                            ));
+                        }
+                        if sent_conn > credit_conn {
+                            let _ = tx.send(format!("viol over-connection-window {sent_conn} DATA bytes received, {credit_conn} granted"));
+                        }
+                        if f.payload.len() > 16384 {
+                            let _ = tx.send(format!("viol over-max-frame DATA frame of {} bytes, max frame size 16384", f.payload.len()));
+                        }
+                        let _ = tx.send(format!("obs data stream={} len={} total={} credit={c}", f.sid, n, sent[&f.sid]));
+                        if f.flags & 1 != 0 {
+                            open.retain(|x| *x != f.sid);
+                            let _ = s.write_all(&frame(T_HEADERS, 5, f.sid, &[0x88]));
+                        }
+                    }
+                    T_RST => {
+                        open.retain(|x| *x != f.sid);
+                        let _ = tx.send(format!("obs rst stream={} code={:?}", f.sid, f.code()));
+                    }
+                    T_GOAWAY => {
+                        let _ = tx.send(format!("obs goaway code={:?}", f.code()));
+                        break 'conn;
+                    }
+                    _ => {}
+                }
             }
-            let len = ((h[0] as usize) << 16) | ((h[1] as usize) << 8) | h[2] as usize;
-            let (t, flags) = (h[3], h[4]);
-            let sid = u32::from_be_bytes([h[5], h[6], h[7], h[8]]) & 0x7fff_ffff;
-            let mut p = vec![0u8; len];
-            if s.read_exact(&mut p).is_err() {
-                break;
-            }
-            match t {
-                4 => {
-                    if flags & 1 == 0 {
-                        let _ = s.write_all(&frame(4, 1, 0, &[]));
-                    } else {
-                        acked = true;
-                        let _ = tx.send("obs settings-acked".into());
+            match s.read(&mut buf) {
+                Ok(0) => break,
+                Ok(n) => acc.extend_from_slice(&buf[..n]),
+                Err(e) if e.kind() == std::io::ErrorKind::WouldBlock || e.kind() == std::io::ErrorKind::TimedOut => {
+                    // silence: whoever still owes us a body is blocked on its stream window: grant one more window
+                    idle_rounds += 1;
+                    if idle_rounds > 100 {
+                        break;
+                    }
+                    for sid in &open {
+                        if sent[sid] >= credit[sid] {
+                            let g = w.max(1);
+                            let _ = s.write_all(&frame(T_WU, 0, *sid, &g.to_be_bytes()));
+                            *credit.get_mut(sid).unwrap() += g as i64;
+                        }
                     }
                 }
-                6 => {
-                    if flags & 1 == 0 {
-                        let _ = s.write_all(&frame(6, 1, 0, &p));
-                    }
-                }
-                1 => {
-                    // a stream opened after sozu acknowledged our SETTINGS starts with OUR initial window;
-                    // before the acknowledgement the default (65535) is what sozu may assume
-                    let c = if acked { w as i64 } else { (w as i64).max(65535) };
-                    credit.entry(sid).or_insert(c);
-                    sent.entry(sid).or_insert(0);
-                    let _ = tx.send(format!("obs headers stream={sid} after_ack={acked} credit={c}"));
-                    if flags & 1 != 0 {
-                        let _ = s.write_all(&frame(1, 5, sid, &[0x88]));
-                    }
-                }
-                0 => {
-                    let n = len as i64;
-                    *sent.entry(sid).or_insert(0) += n;
-                    sent_conn += n;
-                    let c = *credit.entry(sid).or_insert(w as i64);
-                    if sent[&sid] > c && !flagged.get(&sid).copied().unwrap_or(false) {
-                        flagged.insert(sid, true);
-                        let _ = tx.send(format!(
-                            "viol over-stream-window backend stream {sid}: {} DATA bytes received, {c} granted (initial window {w}, after_ack={acked})",
-                            sent[&sid]
-                        ));
-                    }
-                    if sent_conn > credit_conn {
-                        let _ = tx.send(format!("viol over-connection-window {sent_conn} DATA bytes received, {credit_conn} granted"));
-                    }
-                    if len > 16384 {
-                        let _ = tx.send(format!("viol over-max-frame DATA frame of {len} bytes, max frame size 16384"));
-                    }
-                    let _ = tx.send(format!("obs data stream={sid} len={len} total={}", sent[&sid]));
-                    if n > 0 {
-                        // replenish exactly what arrived
-                        let inc = (len as u32).to_be_bytes();
-                        let _ = s.write_all(&frame(8, 0, 0, &inc));
-                        let _ = s.write_all(&frame(8, 0, sid, &inc));
-                        credit_conn += n;
-                        *credit.get_mut(&sid).unwrap() += n;
-                    }
-                    if flags & 1 != 0 {
-                        let _ = s.write_all(&frame(1, 5, sid, &[0x88]));
-                    }
-                }
-                3 => {
-                    let _ = tx.send(format!("obs rst stream={sid}"));
-                }
-                7 => {
-                    let _ = tx.send("obs goaway".into());
-                    break;
-                }
-                _ => {}
+                Err(_) => break,
             }
         }
     }
 }
 
+fn h1_client(front: SocketAddr, body: usize, nreq: usize) -> usize {
+    let mut ok = 0;
+    let Ok(mut c) = TcpStream::connect(front) else {
+        println!("note could-not-connect-front");
+        return 0;
+    };
+    c.set_read_timeout(Some(Duration::from_secs(15))).unwrap();
+    for i in 0..nreq {
+        let head = format!("POST /r{i} HTTP/1.1\r\nHost: localhost\r\nContent-Length: {body}\r\n\r\n");
+        if c.write_all(head.as_bytes()).is_err() || c.write_all(&vec![b'x'; body]).is_err() {
+            break;
+        }
+        let mut acc = Vec::new();
+        let mut buf = [0u8; 4096];
+        let t0 = Instant::now();
+        while t0.elapsed() < Duration::from_secs(15) {
+            match c.read(&mut buf) {
+                Ok(0) => break,
+                Ok(n) => {
+                    acc.extend_from_slice(&buf[..n]);
+                    if acc.windows(4).any(|w| w == b"\r\n\r\n") {
+                        break;
+                    }
+                }
+                Err(_) => break,
+            }
+        }
+        let line = String::from_utf8_lossy(&acc).lines().next().unwrap_or("").to_string();
+        println!("obs response {i} {}", line.replace(' ', "_"));
+        if line.contains(" 200") {
+            ok += 1;
+        } else {
+            break;
+        }
+    }
+    ok
+}
+
+/// raw H2 client: announces `cw` as its initial window, uploads `body` bytes per request respecting sozu's windows
+fn h2_client(front: SocketAddr, body: usize, nreq: usize, cw: u32) -> usize {
+    let Some(mut p) = Peer::connect(front) else {
+        println!("note could-not-connect-front");
+        return 0;
+    };
+    if !p.handshake(&[(4, cw)]) {
+        println!("note h2-handshake-failed");
+        return 0;
+    }
+    let mut ok = 0;
+    let mut conn_win: i64 = 65535;
+    for i in 0..nreq {
+        let sid = 1 + 2 * i as u32;
+        let mut win: i64 = 65535; // sozu's SETTINGS_INITIAL_WINDOW_SIZE (default) for our uploads
+        p.send(&frame(T_HEADERS, 4, sid, &request_block(true, "/up")));
+        let mut left = body;
+        let t0 = Instant::now();
+        let mut status = None;
+        while t0.elapsed() < Duration::from_secs(20) && status.is_none() && !p.closed {
+            while left > 0 && win > 0 && conn_win > 0 {
+                let n = left.min(16384).min(win as usize).min(conn_win as usize);
+                left -= n;
+                win -= n as i64;
+                conn_win -= n as i64;
+                p.send(&frame(T_DATA, (left == 0) as u8, sid, &vec![b'y'; n]));
+            }
+            let fr = p.read_until(Duration::from_millis(200), |f| !f.is_empty());
+            for f in fr {
+                match f.t {
+                    T_WU if f.payload.len() == 4 => {
+                        let inc = u32::from_be_bytes([f.payload[0], f.payload[1], f.payload[2], f.payload[3]]) as i64;
+                        if f.sid == 0 {
+                            conn_win += inc;
+                        } else if f.sid == sid {
+                            win += inc;
+                        }
+                    }
+                    T_HEADERS if f.sid == sid => {
+                        if f.payload.first() != Some(&0x88) {
+                            println!("obs response-headers {}", String::from_utf8_lossy(&f.payload).replace(|c: char| !c.is_ascii_graphic(), "."));
+                        }
+                        status = f.payload.first().copied()
+                    }
+                    T_RST if f.sid == sid => status = Some(0),
+                    T_GOAWAY => status = Some(1),
+                    T_SETTINGS if f.flags & 1 == 0 => {
+                        p.send(&frame(T_SETTINGS, 1, 0, &[]));
+                    }
+                    _ => {}
+                }
+            }
+        }
+        println!("obs response {i} hpack_status={:?} body_left={left} after_ms={}", status, t0.elapsed().as_millis());
+        if status == Some(0x88) {
+            ok += 1;
+        } else {
+            break;
+        }
+    }
+    ok
+}
+
 fn main() {
     let args: Vec<String> = std::env::args().collect();
-    let w: u32 = args.get(1).and_then(|x| x.parse().ok()).unwrap_or(1000);
-    let body: usize = args.get(2).and_then(|x| x.parse().ok()).unwrap_or(30000);
-    let nreq: usize = args.get(3).and_then(|x| x.parse().ok()).unwrap_or(2);
-    let _ = sozu_command_lib::logging::setup_logging("file:///dev/null", false, None, None, None, "error", "C14BB");
+    let mode = args.get(1).cloned().unwrap_or("h1".into());
+    let w: u32 = args.get(2).and_then(|x| x.parse().ok()).unwrap_or(1000);
+    let body: usize = args.get(3).and_then(|x| x.parse().ok()).unwrap_or(5000);
+    let nreq: usize = args.get(4).and_then(|x| x.parse().ok()).unwrap_or(2);
+    let cw: u32 = args.get(5).and_then(|x| x.parse().ok()).unwrap_or(65535);
+    let log_level = std::env::var("C14BB_LOG").unwrap_or_default();
+    if log_level.is_empty() {
+        let _ = sozu_command_lib::logging::setup_logging("file:///dev/null", false, None, None, None, "error", "C14BB");
+    } else {
+        let _ = sozu_command_lib::logging::setup_logging("stdout", false, None, None, None, &log_level, "C14BB");
+    }
 
     let front: SocketAddr = format!("127.0.0.1:{}", free_port()).parse().unwrap();
     let back_listener = TcpListener::bind("127.0.0.1:0").unwrap();
@@ -154,91 +272,46 @@ fn main() {
     let txb = tx.clone();
     std::thread::spawn(move || backend(back_listener, w, txb));
 
-    // worker
-    let config = ConfigBuilder::new(FileConfig::default(), "").into_config().expect("config");
-    let sc = ServerConfig::from(&config);
-    let (mut main_ch, worker_ch): (Channel<WorkerRequest, WorkerResponse>, Channel<WorkerResponse, WorkerRequest>) =
-        Channel::generate(sc.command_buffer_size, sc.max_command_buffer_size).expect("channel");
-    let (s1, s2) = UnixStream::pair().unwrap();
-    let scm_main = ScmSocket::new(s1.into_raw_fd()).expect("scm");
-    let scm_worker = ScmSocket::new(s2.into_raw_fd()).expect("scm");
-    scm_main.send_listeners(&Listeners::default()).expect("send listeners");
-    let sc2 = sc.clone();
-    std::thread::spawn(move || {
-        let mut server =
-            Server::try_new_from_config(worker_ch, scm_worker, sc2, ConfigState::new().produce_initial_state(), false)
-                .expect("worker");
-        server.run();
-    });
-    let fa: SocketAddress = front.into();
-    let reqs = vec![
-        RequestType::AddHttpListener(ListenerBuilder::new_http(fa.clone()).to_http(None).unwrap()),
-        RequestType::ActivateListener(ActivateListener { address: fa.clone(), proxy: ListenerType::Http.into(), from_scm: false }),
-        RequestType::AddCluster(Cluster { cluster_id: "c0".into(), http2: Some(true), ..Default::default() }),
-        RequestType::AddHttpFrontend(RequestHttpFrontend {
+    let mut wk = start_worker();
+    let ok = if mode == "h2" {
+        configure_https(&mut wk, https_listener_config(front), front, back, true);
+        h2_client(front, body, nreq, cw)
+    } else {
+        let fa: SocketAddress = front.into();
+        wk.send(RequestType::AddHttpListener(ListenerBuilder::new_http(fa.clone()).to_http(None).unwrap()));
+        wk.send(RequestType::ActivateListener(ActivateListener { address: fa.clone(), proxy: ListenerType::Http.into(), from_scm: false }));
+        wk.send(RequestType::AddCluster(Cluster { cluster_id: "c0".into(), http2: Some(true), ..Default::default() }));
+        wk.send(RequestType::AddHttpFrontend(RequestHttpFrontend {
             cluster_id: Some("c0".into()),
-            address: fa.clone(),
+            address: fa,
             hostname: "localhost".into(),
             path: PathRule::prefix("/".to_string()),
             position: RulePosition::Tree.into(),
             ..Default::default()
-        }),
-        RequestType::AddBackend(AddBackend {
+        }));
+        wk.send(RequestType::AddBackend(AddBackend {
             cluster_id: "c0".into(),
             backend_id: "c0-0".into(),
             address: back.into(),
             load_balancing_parameters: Some(LoadBalancingParams::default()),
             sticky_id: None,
             backup: None,
-        }),
-    ];
-    main_ch.blocking().expect("blocking");
-    for (i, r) in reqs.into_iter().enumerate() {
-        main_ch
-            .write_message(&WorkerRequest { id: format!("ID-{i}"), content: Request { request_type: Some(r) } })
-            .expect("write");
-    }
-    std::thread::sleep(Duration::from_millis(500));
-
-    // client
-    let mut ok = 0;
-    if let Ok(mut c) = TcpStream::connect(front) {
-        c.set_read_timeout(Some(Duration::from_secs(6))).unwrap();
-        for i in 0..nreq {
-            let head = format!("POST /r{i} HTTP/1.1\r\nHost: localhost\r\nContent-Length: {body}\r\n\r\n");
-            if c.write_all(head.as_bytes()).is_err() || c.write_all(&vec![b'x'; body]).is_err() {
-                break;
-            }
-            let mut acc = Vec::new();
-            let mut buf = [0u8; 4096];
-            let t0 = Instant::now();
-            while t0.elapsed() < Duration::from_secs(6) {
-                match c.read(&mut buf) {
-                    Ok(0) => break,
-                    Ok(n) => {
-                        acc.extend_from_slice(&buf[..n]);
-                        if acc.windows(4).any(|w| w == b"\r\n\r\n") {
-                            break;
-                        }
-                    }
-                    Err(_) => break,
-                }
-            }
-            let line = String::from_utf8_lossy(&acc).lines().next().unwrap_or("").to_string();
-            println!("obs response {i} {}", line.replace(' ', "_"));
-            if line.contains("200") {
-                ok += 1;
-            } else {
-                break;
-            }
-        }
-    } else {
-        println!("note could-not-connect-front");
-    }
+        }));
+        std::thread::sleep(Duration::from_millis(400));
+        h1_client(front, body, nreq)
+    };
     std::thread::sleep(Duration::from_millis(300));
     drop(tx);
     while let Ok(l) = rx.try_recv() {
         println!("{l}");
+    }
+    if ok < nreq {
+        // h1: deterministic (regression guard of the keep-alive slot reset); h2: the upload can stall on a lost wake-up
+        let class = if mode == "h2" { "transfer-stalled" } else { "keepalive-broken" };
+        println!("viol {class} only {ok} of {nreq} sequential uploads on one client connection were answered 200 (mode {mode}, backend window {w}, body {body})");
+    }
+    if !wk.alive() {
+        println!("viol worker-died the worker thread ended");
     }
     println!("obs done responses_ok={ok} of {nreq}");
     std::process::exit(0);
